@@ -680,7 +680,19 @@ def decorate_with_checker(func: CallableT) -> CallableT:
             "a reserved placeholder for keyword arguments in the condition."
         )
 
-    param_names = list(sign.parameters.keys())
+    # Only the parameters up to (and including) the variable positional parameter (``*args``) can be bound
+    # by position. The keyword-only parameters which follow it must never be mapped to the surplus positional
+    # arguments of a call.
+    param_names = [
+        param.name
+        for param in sign.parameters.values()
+        if param.kind
+        in (
+            inspect.Parameter.POSITIONAL_ONLY,
+            inspect.Parameter.POSITIONAL_OR_KEYWORD,
+            inspect.Parameter.VAR_POSITIONAL,
+        )
+    ]
 
     # Determine the default argument values
     kwdefaults = resolve_kwdefaults(sign=sign)
